@@ -9,6 +9,8 @@
 //!   C01 bhv  (fields of `bh`) handler=<0|1>  -> same reply shape (`verify_hash_binding`, box-hash arm,
 //!            through both the `Bytes` and the `Stream` variant of `ClaimAssetData`)
 //!   C01 bmffv (fields of `bmff`) self=<ok|malformed>  -> same reply shape (BMFF arm)
+//!   C01 bmx  data=<hex> start=<n> maps=<off:hex,…>  -> match | nomatch | err
+//!            (data constraint of a BMFF exclusion entry as `bmff_to_jumbf_exclusions` evaluates it)
 //!   C01 bh   data=<hex> [mut=<op>] src=<names:start:len;…|err|-> boxes=<names:alg:pre:excl;…>
 //!            calg=<a|-> buf=<n>                                -> ok | err:<class>
 //!            (`BoxHash::verify_stream_hash` with the given handler box map)
@@ -1182,7 +1184,26 @@ fn check_mutation(run: &mut Run, s: &Signed, m: &Mutation, with_model: bool) {
         Mutation::Trunc(n) => (*n..s.bytes.len()).all(|i| in_ranges(&s.declared, i as u64)),
         _ => false,
     };
-    let confined = (same_len && (0..mutated.len()).all(|i| mutated[i] == s.bytes[i] || in_ranges(&s.declared, i as u64))) || removal_confined;
+    // BMFF: added bytes are confined when they form whole top-level boxes each of which the
+    // signed assertion declares excluded (a `free` box; never a `uuid` box that does not carry
+    // the full C2PA extended type) — judged by the independent matcher `declared_excluded`
+    let addition_confined = match (&s.info, m) {
+        (BindingInfo::Bmff { hash, .. }, Mutation::Ins(_, added)) | (BindingInfo::Bmff { hash, .. }, Mutation::App(added)) => {
+            let p = match m {
+                Mutation::Ins(p, _) => *p,
+                _ => s.bytes.len(),
+            };
+            match (tl_boxes(&s.bytes), tl_boxes(added)) {
+                (Some(tl), Some(new)) if p == s.bytes.len() || tl.iter().any(|b| b.0 == p) => new.iter().all(|b| declared_excluded(&mutated, (p + b.0, b.1, b.2), hash.exclusions())),
+                _ => false,
+            }
+        }
+        _ => false,
+    };
+    if addition_confined && rep.accepted() {
+        run.count(&format!("e2e:addition-of-excluded-box-accepted:{}", s.binding.tag()));
+    }
+    let confined = (same_len && (0..mutated.len()).all(|i| mutated[i] == s.bytes[i] || in_ranges(&s.declared, i as u64))) || removal_confined || addition_confined;
     let changed = mutated != s.bytes;
     let touches_manifest = match m {
         Mutation::Flip(p, _) | Mutation::Set(p, _) => in_ranges(&s.manifest, *p as u64),
@@ -1386,6 +1407,197 @@ fn check_mutation(run: &mut Run, s: &Signed, m: &Mutation, with_model: bool) {
     }
 }
 
+// ───────────────────────── BMFF: independent exclusion matcher, structural tampering ─────────────────────────
+
+/// top-level boxes `(start, total length, type)` by the container rules alone (32-bit size,
+/// `size == 1` → 64-bit largesize, `size == 0` → to the end of the file); `None` = not a box list
+fn tl_boxes(b: &[u8]) -> Option<Vec<(usize, usize, [u8; 4])>> {
+    let (mut p, mut out) = (0usize, vec![]);
+    while p < b.len() {
+        if p + 8 > b.len() {
+            return None;
+        }
+        let sz = u32::from_be_bytes([b[p], b[p + 1], b[p + 2], b[p + 3]]) as u64;
+        let ty = [b[p + 4], b[p + 5], b[p + 6], b[p + 7]];
+        let len = match sz {
+            0 => (b.len() - p) as u64,
+            1 => {
+                if p + 16 > b.len() {
+                    return None;
+                }
+                u64::from_be_bytes(b[p + 8..p + 16].try_into().ok()?)
+            }
+            n => n,
+        };
+        if len < 8 || p as u64 + len > b.len() as u64 {
+            return None;
+        }
+        out.push((p, len as usize, ty));
+        p += len as usize;
+    }
+    Some(out)
+}
+
+/// Does the signed assertion declare the top-level box `bx` of `file` excluded *as a whole*?
+/// Written from the assertion's wording, independently of `bmff_to_jumbf_exclusions`: the box
+/// type is the (single-segment) xpath AND every stated constraint holds — exact length, version
+/// and flags (bytes 8 and 9..12 of the box), and every data pattern lies **inside the box** and
+/// equals the bytes there. Entries with a `subset` exclude only part of a box: not "as a whole".
+fn declared_excluded(file: &[u8], bx: (usize, usize, [u8; 4]), excl: &[c2pa::assertions::ExclusionsMap]) -> bool {
+    let (start, len, ty) = bx;
+    let body = &file[start..start + len];
+    excl.iter().any(|e| {
+        let Some(name) = e.xpath.strip_prefix('/') else { return false };
+        if name.contains('/') || name.as_bytes() != ty || e.subset.is_some() {
+            return false;
+        }
+        if e.length.map(|l| l != len as u64).unwrap_or(false) {
+            return false;
+        }
+        if let Some(v) = e.version {
+            if len < 12 || body[8] != v {
+                return false;
+            }
+        }
+        if let Some(f) = &e.flags {
+            if len < 12 || f.len() < 3 {
+                return false;
+            }
+            let want = u32::from_be_bytes([0, f[0], f[1], f[2]]);
+            let have = u32::from_be_bytes([0, body[9], body[10], body[11]]);
+            let ok = if e.exact.unwrap_or(true) { want == have } else { (want | have) == want };
+            if !ok {
+                return false;
+            }
+        }
+        if let Some(maps) = &e.data {
+            for dm in maps {
+                let Some(end) = (dm.offset as usize).checked_add(dm.value.len()) else { return false };
+                if end > len || body[dm.offset as usize..end] != dm.value[..] {
+                    return false;
+                }
+            }
+        }
+        true
+    })
+}
+
+const C2PA_UUID: [u8; 16] = [0xd8, 0xfe, 0xc3, 0xd6, 0x1b, 0x0e, 0x48, 0x3c, 0x92, 0x97, 0x58, 0x28, 0x87, 0x7e, 0xc4, 0x81];
+
+fn mk_box(ty: &[u8; 4], payload: &[u8]) -> Vec<u8> {
+    let mut b = ((payload.len() + 8) as u32).to_be_bytes().to_vec();
+    b.extend_from_slice(ty);
+    b.extend_from_slice(payload);
+    b
+}
+
+/// Small / odd boxes to add to a BMFF file: `uuid` boxes of every total length 8..=40 with an
+/// arbitrary, a C2PA-prefixed and an almost-C2PA extended type; `free` / `skip` boxes; boxes whose
+/// type equals an exclusion's xpath but that are otherwise unrelated; unknown types. Each is
+/// also offered followed by an empty `free` box (a `uuid` box must not be the last thing: the
+/// box-tree parser reads 16 bytes of extended type after every `uuid` header).
+fn odd_boxes(rng: &mut Rng, thorough: bool) -> Vec<Vec<u8>> {
+    let mut v: Vec<Vec<u8>> = vec![];
+    for total in 8usize..=40 {
+        let n = total - 8;
+        let fill = rng.next() as u8;
+        let arbitrary = vec![fill; n];
+        let prefixed: Vec<u8> = (0..n).map(|i| if i < 16 { C2PA_UUID[i] } else { fill }).collect();
+        let mut almost = prefixed.clone();
+        if let Some(last) = almost.iter_mut().take(16).last() {
+            *last ^= 1;
+        }
+        v.push(mk_box(b"uuid", &arbitrary));
+        if thorough || total % 3 == 2 || (22..=25).contains(&total) {
+            v.push(mk_box(b"uuid", &prefixed));
+            v.push(mk_box(b"uuid", &almost));
+        }
+    }
+    for n in [0usize, 1, 4, 9] {
+        v.push(mk_box(b"free", &rng.bytes(n)));
+        v.push(mk_box(b"skip", &rng.bytes(n)));
+    }
+    v.push(mk_box(b"mfra", &rng.bytes(5)));
+    v.push(mk_box(b"ftyp", b"isom\0\0\0\0"));
+    v.push(mk_box(b"fre2", &rng.bytes(3)));
+    v.push(mk_box(b"UUID", &C2PA_UUID));
+    v.push(mk_box(b"mdat", &rng.bytes(2)));
+    let with_free: Vec<Vec<u8>> = v.iter().map(|b| [b.clone(), mk_box(b"free", &[])].concat()).collect();
+    v.extend(with_free);
+    v
+}
+
+/// Structural tampering of a BMFF-bound asset: every odd box appended after the last top-level
+/// box, and (thorough / small assets: every; else the first and the last) inserted before each
+/// top-level box. The resolver-level oracle runs on every resulting file; `check_mutation`
+/// carries the property oracle.
+fn bmff_structural(run: &mut Run, s: &Signed, rng: &mut Rng) {
+    let BindingInfo::Bmff { hash, .. } = &s.info else { return };
+    let Some(tl) = tl_boxes(&s.bytes) else {
+        run.count("bmff-structural:signed-asset-not-a-box-list");
+        return;
+    };
+    let thorough = run.thorough();
+    let boxes = odd_boxes(rng, thorough);
+    let mut at: Vec<usize> = vec![s.bytes.len()];
+    if s.small {
+        let inner: Vec<usize> = tl.iter().map(|b| b.0).filter(|p| *p > 0).collect();
+        if thorough {
+            at.extend(inner);
+        } else {
+            at.extend(inner.first().cloned());
+            at.extend(inner.last().cloned());
+        }
+    }
+    at.sort();
+    at.dedup();
+    for (k, bx) in boxes.iter().enumerate() {
+        for &p in &at {
+            // in the quick tier the inner boundaries get every 4th box
+            if !thorough && p != s.bytes.len() && k % 4 != 0 {
+                continue;
+            }
+            let m = if p == s.bytes.len() { Mutation::App(bx.clone()) } else { Mutation::Ins(p, bx.clone()) };
+            let mutated = m.apply(&s.bytes);
+            // resolver-level oracle: a whole top-level box that `bmff_to_jumbf_exclusions` leaves
+            // out of the hash must be one the signed assertion declares excluded
+            let hh = hash.as_ref();
+            let mm = mutated.clone();
+            if let Ok(Ok(ranges)) = guarded(std::panic::AssertUnwindSafe(|| hook::bmff_exclusions(&mut Cursor::new(mm), hh))) {
+                if let Some(tl2) = tl_boxes(&mutated) {
+                    run.count("bmff-structural:resolver-checked");
+                    // model-level: the data constraint of the `/uuid` entry on every top-level
+                    // `uuid` box (window of 64 bytes from the box start; patterns end before 64)
+                    let uuid_entries: Vec<_> = hh.exclusions().iter().filter(|e| e.xpath == "/uuid").collect();
+                    if let [e] = uuid_entries[..] {
+                        if let (Some(maps), None, None, None, None) = (&e.data, &e.length, &e.version, &e.flags, &e.subset) {
+                            if maps.iter().all(|d| d.offset as usize + d.value.len() <= 64) {
+                                for b in tl2.iter().filter(|b| &b.2 == b"uuid") {
+                                    let win = &mutated[b.0..(b.0 + 64).min(mutated.len())];
+                                    let excluded = ranges.iter().any(|r| r.bmff_offset().is_none() && r.start() == b.0 as u64 && r.length() == b.1 as u64);
+                                    let maps_s = maps.iter().map(|d| format!("{}:{}", d.offset, hex(&d.value))).collect::<Vec<_>>().join(",");
+                                    run.case(format!("C01 bmx data={} start=0 maps={}", hex(win), maps_s), if excluded { "match".into() } else { "nomatch".to_string() });
+                                    run.count(if excluded { "bmx:match" } else { "bmx:nomatch" });
+                                }
+                            }
+                        }
+                    }
+                    for r in ranges.iter().filter(|r| r.bmff_offset().is_none()) {
+                        if let Some(b) = tl2.iter().find(|b| b.0 as u64 == r.start() && b.1 as u64 == r.length()) {
+                            if !declared_excluded(&mutated, *b, hh.exclusions()) {
+                                let i = run.case(format!("C01 oracle asset={}:{} kind=bmff-resolver mut={}", s.binding.tag(), s.format, m.text()), "oracle-only".into());
+                                run.fail(i, "bmff-excluded-box-not-declared", format!("{}:{} {}: bmff_to_jumbf_exclusions excludes the whole top-level box {:?} at {} (len {}) although it does not satisfy any exclusion of the signed assertion", s.binding.tag(), s.format, m.text(), String::from_utf8_lossy(&b.2), b.0, b.1));
+                            }
+                        }
+                    }
+                }
+            }
+            check_mutation(run, s, &m, false);
+            run.count("bmff-structural:mutations");
+        }
+    }
+}
+
 /// the report after the mutation names as active manifest a manifest that the signed report
 /// lists as a non-active one
 fn rolled_back(base: &str, now: &str) -> bool {
@@ -1422,6 +1634,30 @@ fn mutations_for(s: &Signed, rng: &mut Rng, thorough: bool, per_asset: usize) ->
             }
             if b > 0 && b < n {
                 out.push((Mutation::Trunc(b), true));
+            }
+        }
+    }
+    // well-formed small / odd segments of the container formats added at structural boundaries
+    // (an empty PNG text chunk and a short `caBX` chunk, empty and truncated JPEG APP11 segments,
+    // GIF comment / application extensions incl. a C2PA-like one, RIFF `C2PA` / `JUNK` chunks of
+    // size 0, an empty BMFF `free` box): partial matches of what the handlers treat as "the
+    // manifest" must not open an unhashed region
+    let odd: Vec<Vec<u8>> = vec![
+        vec![0, 0, 0, 0, b't', b'E', b'X', b't', 0x4f, 0xf1, 0x41, 0x28],
+        vec![0, 0, 0, 1, b'c', b'a', b'B', b'X', 0x6a, 0, 0, 0, 0],
+        vec![0xff, 0xeb, 0, 2],
+        vec![0xff, 0xeb, 0, 8, 0x4a, 0x50, 0x02, 0x11, 0, 0],
+        vec![0x21, 0xfe, 0],
+        [&[0x21u8, 0xff, 0x0b][..], b"C2PA_GIF", &[1, 0, 0, 0][..]].concat(),
+        [&b"C2PA"[..], &[0, 0, 0, 0][..]].concat(),
+        [&b"JUNK"[..], &[0, 0, 0, 0][..]].concat(),
+        mk_box(b"free", &[]),
+    ];
+    let odd_at: Vec<usize> = if s.small || s.bounds.len() <= 6 { s.bounds.clone() } else { [&s.bounds[..4], &s.bounds[s.bounds.len() - 2..]].concat() };
+    for (k, &b) in odd_at.iter().enumerate() {
+        for (j, o) in odd.iter().enumerate() {
+            if thorough || (j + k) % 3 == 0 || b == n {
+                out.push((Mutation::Ins(b, o.clone()), false));
             }
         }
     }
@@ -1565,12 +1801,16 @@ fn e2e(run: &mut Run, rng: &mut Rng) {
         check_mutation(run, s, &Mutation::App(b"garbage".to_vec()), s.small);
         run.count("replay:F5-append-under-box-hash");
     }
+    // BMFF: small / odd boxes added at the top level
+    for s in signed.iter().filter(|s| matches!(s.info, BindingInfo::Bmff { .. })) {
+        bmff_structural(run, s, rng);
+    }
     let per_asset = if thorough { 160 } else { 28 };
     let model_budget = if thorough { 150 } else { 60 };
     for s in &signed {
         let muts = mutations_for(s, rng, thorough, per_asset);
         let mut used = 0usize;
-        let cap = if thorough { usize::MAX } else if s.small { 260 } else { 150 };
+        let cap = if thorough { usize::MAX } else if s.small { 420 } else { 200 };
         let step = (muts.len() / cap.max(1)).max(1);
         for (i, (m, want_model)) in muts.iter().enumerate() {
             if i % step != 0 {
